@@ -35,7 +35,7 @@ func checkC19(c *Ctx, r *Report) {
 			c19FailedReads(r, ps)
 		}
 	}
-	r.Floor("failed_read_outcomes", 4)
+	r.Floor("failed_read_outcomes", 2)
 }
 
 // c19FailedReads: every outcome after a failed read is an error outcome
